@@ -77,6 +77,18 @@ CHECKS = {
         "ref": "DESIGN.md §3.5, §3.7, §4 C05",
         "note": "Trusted: as C03/C04. Open finding KF_C05_effect_coding: families on which the code's simplified rule (spec predicate SimpleRuleExact) is not an exact cover.",
     },
+    "C13": {
+        "technique": "TLA+ spec (Coding.tla: validity predicates with exact fraction-free ranks = Abs; index-formula transcription of categorical.py = Impl) model checked with TLC for every size and reference; spec matrices compared with the real Treatment/Sum objects; real matrices judged by TLC; option handling replayed through design_matrices against the spec's matrices; interchangeability through Contrasts.tla + exact ranks",
+        "text": "TLC proves for every n <= 8 (quick) / 12 (thorough) and every reference / omitted level that the transcribed constructions satisfy the validity predicates (indicator columns with zero reference row; zero column sums with the omitted level coded -1; k = n-1; rank n together with the constant; full codings of rank n; labels name the levels) and the real Treatment/Sum outputs must equal the spec's matrices; the real matrices for n <= 12 are judged by TLC directly. Every permutation of <= 4 (5) levels passed as levels= x every reference x 10 spellings of C/T/S (incl. defaults and the T = C(Treatment), S = C(Sum) synonyms) x with/without intercept is built by the real code and compared with the spec's rows and level labels. Swapping codings never changes the column space: C03's exact-rank replay with variable / C / T(ref) / S / C(Sum) atoms.",
+        "ref": "DESIGN.md §3.6, §4 C13",
+        "note": "Trusted: TLC integer arithmetic (32-bit; determinants of 0/±1 matrices up to 13x13 stay far below 2^31), fv/rank.py.",
+    },
+    "C11": {
+        "technique": "TLA+ spec (Scopes.tla: ordered scope chain, one action per probe) model checked with TLC over the complete configuration space; every terminal state replayed into design_matrices through synthetic caller modules with sentinels",
+        "text": "Complete enumeration: all 1536 configurations (which of data / built-ins / caller locals / caller globals / extra_namespace define the name; decoy definitions in the locals and globals of frames that env does not select; role argument or callee; plain, back-quoted or dotted name; env 0..3). TLC checks FirstMatchWins, DecoysIrrelevant and NoShadowing on the probe-by-probe machine and exports the winner of each configuration; the harness builds four nested callers in four synthetic modules, plants distinguishable sentinels and observes which object reaches a recording function (argument role) or gets called (callee role, dotted via attribute access); an undefined name must raise.",
+        "ref": "DESIGN.md §3.9, §4 C11",
+        "note": "Trusted: the sentinel harness fv/drivers/c11.py. The built-in scope is probed with the name 'scale'.",
+    },
 }
 
 NOT_YET = "check not built yet (work in progress; see DESIGN.md §9 build order)"
